@@ -53,5 +53,13 @@ PROP = {
         "handles are released only through public API: drop, clone, take() (polled or not)",
         "a wake that arrives while the taker is being polled counts as outstanding (what every executor does)",
     ],
-    "legs": LEGS,
+    "legs": LEGS + [
+        # runtime level: /proc/self/fd census, close() protocol on File / TcpStream / UnixStream, cancelled fd-producing ops
+        {"name": "rt-census", "build": "plain", "pkg": "vdrv", "cmd": "c06", "shards": 8,
+         "args": {"quick": ["--iters", 400, "--budget-ms", 45000], "thorough": ["--iters", 20000, "--budget-ms", 400000]},
+         "timeout_s": {"quick": 240, "thorough": 900}},
+        {"name": "rt-census-asan", "build": "asan", "pkg": "vdrv", "cmd": "c06", "shards": 4,
+         "args": {"quick": ["--iters", 100, "--budget-ms", 40000], "thorough": ["--iters", 4000, "--budget-ms", 400000]},
+         "timeout_s": {"quick": 240, "thorough": 900}},
+    ],
 }
